@@ -46,6 +46,7 @@ MCNext ==
            /\ (d # <<>> \/ ty = 4)
            /\ Send(s, TestMsg(ty, d, ser, IF ty \in {2,3} THEN rs ELSE 0, fl), <<>>)
     \/ "close" \in Ops /\ ClientClose(s)
+    \/ "hostile" \in Ops /\ Corrupt(s)          \* any byte string that is not a valid message
     \/ \E order \in [1..Cardinality(NamesOf(queue, s)) -> NamesOf(queue, s)] : Drop(s, order)
     \/ "send" \in Ops /\ \E i \in 1..Len(pend) : ExpirePending(i)
 
@@ -125,4 +126,17 @@ UniqueNeverReused == [][\A s \in Slot : uname'[s] # uname[s] /\ uname'[s] # <<>>
 \* a refused request changes nothing (C13): when the reply is LimitsExceeded the registry and rules are untouched
 RefusalChangesNothing ==
   [][(\E i \in 1..Len(out') : out'[i].m.err = E_LimitsExceeded) => queue' = queue /\ rules' = rules /\ cst' = cst /\ pend' = pend]_vars
+\* ---- C10: what a misbehaving client can cause
+\* the step in which the bus gives up on a connection (invalid bytes, a monitor or unregistered client speaking)
+\* changes nothing but that connection's fate; only monitors may be shown the offending (valid) message
+KillChangesNothingElse ==
+  [][\A s \in Slot : dying'[s] /\ ~dying[s] =>
+        /\ queue' = queue /\ rules' = rules /\ cst' = cst /\ pend' = pend /\ uname' = uname
+        /\ \A i \in 1..Len(out') : cst[out'[i].to] = "monitor"]_vars
+\* when the connection is finally dropped the others only hear from the bus itself
+DropOnlyBusSpeaks ==
+  [][(\E s \in Slot : cst[s] # "absent" /\ cst'[s] = "absent") =>
+        \A i \in 1..Len(out') : out'[i].m.org = 0 /\ out'[i].m.snd = BUS]_vars
+\* whatever the others did, a registered live client's call to the bus is served
+AlwaysServed == \A s \in Slot : cst[s] = "active" /\ ~dying[s] => ENABLED Query(s, 1, 0, "ping", <<>>)
 =============================================================================
